@@ -102,6 +102,7 @@ type Exec struct {
 	res     *JobResult
 	work    []*State
 	vioSeen map[string]bool
+	vioCount map[string]int
 	funcs   map[string]bool
 	repoMod string
 	cuts    map[string]bool
@@ -314,7 +315,10 @@ func (ex *Exec) modelOf(st *State, vals []*big.Int) []DrawValue {
 func (ex *Exec) recordViolation(st *State, label string, neg *Term, detail string) {
 	site, fn := ex.repoSite(st)
 	key := label + "@" + site
-	if ex.vioSeen[key] {
+	// up to four instances per obligation and job (from different paths): the first model is not always
+	// the one that reproduces natively (a path whose failure lives only in the model of an uninterpreted
+	// function may come first)
+	if ex.vioCount[key] >= 4 {
 		return
 	}
 	want := ex.drawTerms(st)
@@ -331,6 +335,7 @@ func (ex *Exec) recordViolation(st *State, label string, neg *Term, detail strin
 		return
 	}
 	ex.vioSeen[key] = true
+	ex.vioCount[key]++
 	var rawVals []*big.Int
 	// Generic model: octets the counterexample does not depend on get arbitrary non-trivial values instead
 	// of the solver's default (usually zero), so that a native replay does not pass by coincidence (e.g. an
